@@ -28,7 +28,8 @@ Inductive op :=
 | ODeleteRule (lang name : str)
 | OAddType (name : str)
 | OAddTypeItem (name : str) (index : N) (format : str) (parse : list str) (up down : str)
-               (names : list str) (digits : option N) (rnd rm : option bool).
+               (names : list str) (digits : option N) (rnd rm : option bool)
+| OSetDateRule (lang : str) (patterns : list str).
 
 Record mstate := { m_cfg : config F; m_sessions : list (N * session (F:=F)) }.
 
@@ -164,6 +165,12 @@ Definition step (m : mstate) (o : op) : mstate * mobs :=
           (with_cfg m (set_types cfg (assoc_insert name (ninsert index d g) (cf_types cfg))), MRet (Some true))
         end
       end
+    end
+  | OSetDateRule lang patterns =>
+    (* SmartCalc::set_date_rule: replaces the small_date rule of a known language (appended last) *)
+    match set_date_rule LX ck cfg lang patterns with
+    | Ok cfg' => (with_cfg m cfg', MRet None)
+    | Panic st => (m, MPanic st)
     end
   end.
 
